@@ -453,3 +453,43 @@ def r6(ctx):
         ctx.check("%s:assigned-before-read" % name, not und and not stale, where(m, (und or stale or [(None, f)])[0][1]),
                   "; ".join(["'%s' (line %d) may be read before it is assigned" % (n, x.lineno) for n, x in und] +
                             ["'%s' (line %d) is only assigned conditionally inside the loop at line %d: the read may see the value of the previous iteration" % (n, x.lineno, lp.lineno) for n, x, lp in stale]))
+
+
+@rule("C20.R7", "a change of the schedule is evaluated with the reliability that change produces: the object's reliability monitors are registered before the interpreter's", floor=2, engines="E0 statement order")
+def r7(ctx):
+    prog = ctx.prog
+    so = prog.cls(MOD, "LocalScheduleObject")
+    it = prog.cls(MOD, "LocalScheduleInterpreter")
+    m = so.module
+    init = so.methods.get("__init__")
+    iinit = it.methods.get("__init__")
+    if init is None or iinit is None:
+        raise AnchorMissing("LocalScheduleObject.__init__ / LocalScheduleInterpreter.__init__")
+    # properties the interpreter listens to for re-evaluation
+    heard = set()
+    for x in ast.walk(iinit):
+        if isinstance(x, ast.Call) and isinstance(x.func, ast.Attribute) and x.func.attr == "append" and "_property_monitors" in norm(x.func.value) and x.args and norm(x.args[0]) == "self.schedule_changed":
+            k = x.func.value.slice if isinstance(x.func.value, ast.Subscript) else None
+            v = prog.try_const(m, k) if k is not None else None
+            if isinstance(v, str):
+                heard.add(v)
+    if not heard:
+        raise ShapeError("LocalScheduleInterpreter.__init__: no schedule_changed monitors found")
+    make = [st for st in init.body if any(isinstance(x, ast.Call) and norm(x.func) == "LocalScheduleInterpreter" for x in ast.walk(st))]
+    reg = [st for st in init.body if any(isinstance(x, ast.Call) and isinstance(x.func, ast.Attribute) and x.func.attr == "append" and "_property_monitors" in norm(x.func.value)
+                                       and x.args and norm(x.args[0]) == "self._check_reliability" for x in ast.walk(st))]
+    ok = len(make) == 1 and len(reg) == 1 and init.body.index(reg[0]) < init.body.index(make[0])
+    ctx.check("LocalScheduleObject.__init__:reliability-monitor-first", ok, where(m, make[0] if make else init),
+              "monitors run in registration order: the interpreter (listening to %s) is created before the reliability check is registered, so it evaluates a changed schedule with the reliability of the old one - a schedule repaired at run time is never evaluated again" % sorted(heard))
+    covered = set()
+    if reg:
+        for x in ast.walk(reg[0]):
+            if isinstance(x, ast.For) and isinstance(x.iter, (ast.Tuple, ast.List)):
+                covered |= {prog.try_const(m, e) for e in x.iter.elts}
+    ctx.check("LocalScheduleObject.__init__:reliability-covers-what-the-interpreter-hears", heard <= covered, where(m, init),
+              "the interpreter re-evaluates on %s but the reliability is re-checked only on %s" % (sorted(heard), sorted(x for x in covered if x)))
+    pt = it.methods.get("process_task")
+    rel = [x for x in walk_shallow(pt) if isinstance(x, ast.Return)] if pt else []
+    first = rel[0] if rel else None
+    ok = first is not None and any("reliability" in t for t, p in atom_texts(facts_at(first)))
+    ctx.check("LocalScheduleInterpreter.process_task:faulty-configuration-not-evaluated", ok, where(m, pt or it.node), "a schedule with a configuration fault must not drive the present value")
